@@ -4,9 +4,20 @@
    on every run (coq/gen/Src_leaf_delta.v; meaning of the c_* operations: CSem.v).
    C integer values are Z; `COk v` = the C abstract machine yields v (no undefined
    behaviour on the way).  Nothing but statements closed by `exact`. *)
-Require Import VV.Base VV.CSem VV.LeafSrcDelta.
+Require Import VV.Base VV.CSem VV.Delta VV.LeafSrcDelta.
 Require Import VVgen.Src_leaf_delta.
 Local Open Scope Z_scope.
+
+(* the regenerated functions compute the hand model (Delta.v) on all of int64_t / uint64_t *)
+Theorem C02_src_varintDeltaZigZag_is_model : forall n, -9223372036854775808 <= n <= 9223372036854775807 ->
+  src_varintDeltaZigZag n = COk (Z.of_N (delta_zigzag n)).
+Proof. exact src_varintDeltaZigZag_is_model. Qed.
+Print Assumptions C02_src_varintDeltaZigZag_is_model.
+
+Theorem C02_src_varintDeltaZigZagDecode_is_model : forall z, 0 <= z < 18446744073709551616 ->
+  src_varintDeltaZigZagDecode z = COk (delta_unzigzag (Z.to_N z)).
+Proof. exact src_varintDeltaZigZagDecode_is_model. Qed.
+Print Assumptions C02_src_varintDeltaZigZagDecode_is_model.
 
 (* the C bit trick is the documented mapping 0,-1,1,-2,... -> 0,1,2,3,... on all of int64_t *)
 Theorem C02_src_zigzag_is_spec : forall n, -9223372036854775808 <= n <= 9223372036854775807 ->
